@@ -112,6 +112,7 @@ def run(ctx, rep, tier):
     rep.rule("R5", "updateCellPos recomputes every net of the cell; recomputeNet updates bound and value together", 4)
     rep.rule("PI", "implicit minimum pin count of the net models is guaranteed by the builders' filters", 2)
     rep.rule("TP", "incremental topologies built from same-axis positions and offsets", 4)
+    rep.rule("SN", "running minima / maxima start on the neutral side and 'nothing seen' is tested as min > max", 6)
     rep.rule("LA", "per-net accumulators (pin extremes, pin lists) are reset for every net", 8)
     rep.rule("NF", "the model builders drop a net only for having fewer than two pins", 1)
     rep.rule("QF", "net-model builders read placed (orientation-aware) geometry only", 4)
@@ -177,6 +178,9 @@ def run(ctx, rep, tier):
                 fs.append(f2)
     if check_loop_accumulators(ctx, rep, "LA", fs) == 0:
         rep.unknown("LA", None, None, "per-net accumulators", "none recognised in the wirelength code (shape changed)")
+    from .common import check_sentinels
+    if check_sentinels(ctx, rep, "SN", fs) == 0:
+        rep.unknown("SN", None, None, "running extrema", "none recognised in the wirelength code (shape changed)")
     check_net_filter(ctx, rep)
     check_pin_invariant(ctx, rep)
 
